@@ -91,6 +91,7 @@ pub enum Outcome {
         seen_done: u64,
         in_place: Option<bool>,
         ttl_ns: Option<u128>,
+        removes_ttl: bool,
         /// earlier queued acknowledgement of the same thread still pending when this one was seen complete
         earlier_pending: bool,
         stalled: bool,
@@ -128,6 +129,10 @@ pub struct History {
     pub background_panics: Vec<String>,
     pub liveness_error: Option<String>,
     pub used_at_end: i64,
+    /// clock value (ns) before the final shard rotation; every key whose deadline is earlier must be gone afterwards
+    pub rotation_start_ns: u64,
+    pub rotated: bool,
+    pub lookups: u64,
 }
 
 #[derive(Clone, Debug, Serialize)]
@@ -273,7 +278,7 @@ fn worker_thread(shared: Arc<Shared>, thread: usize, ops: Vec<COp>, barrier: Arc
                         (false, None) => cache.put(key, token),
                         (false, Some(ttl)) => cache.put_with_ttl(key, token, ttl),
                     };
-                    write_outcome(result, *k, Some(token), "put", None, ttl, *wait, &mut new_write)
+                    write_outcome(result, *k, Some(token), "put", None, ttl, false, *wait, &mut new_write)
                 }
                 COp::Upsert { k, down, ttl, wait } => {
                     let key = *k as u64;
@@ -291,11 +296,11 @@ fn worker_thread(shared: Arc<Shared>, thread: usize, ops: Vec<COp>, barrier: Arc
                     let _ = verif::take_last_upsert_in_place();
                     let result = cache.put_or_update(builder.build());
                     let in_place = verif::take_last_upsert_in_place();
-                    write_outcome(result, *k, Some(token), "upsert", in_place, ttl_value, *wait, &mut new_write)
+                    write_outcome(result, *k, Some(token), "upsert", in_place, ttl_value, matches!(ttl, TtlReq::Remove), *wait, &mut new_write)
                 }
                 COp::Delete { k, wait } => {
                     let result = cache.delete(*k as u64);
-                    write_outcome(result, *k, None, "delete", None, None, *wait, &mut new_write)
+                    write_outcome(result, *k, None, "delete", None, None, false, *wait, &mut new_write)
                 }
                 COp::Read { kind, keys } => {
                     // multi_get returns a map: with duplicate keys the number of hits cannot be recovered from it (SEQ covers duplicates)
@@ -361,14 +366,14 @@ fn worker_thread(shared: Arc<Shared>, thread: usize, ops: Vec<COp>, barrier: Arc
 }
 
 #[allow(clippy::too_many_arguments)]
-fn write_outcome(result: tinylfu_cached::cache::command::command_executor::CommandSendResult, key: u8, token: Option<u64>, kind: &'static str, in_place: Option<bool>, ttl: Option<Duration>, wait: bool, new_write: &mut Option<(Arc<CommandAcknowledgement>, bool)>) -> Outcome {
+fn write_outcome(result: tinylfu_cached::cache::command::command_executor::CommandSendResult, key: u8, token: Option<u64>, kind: &'static str, in_place: Option<bool>, ttl: Option<Duration>, removes_ttl: bool, wait: bool, new_write: &mut Option<(Arc<CommandAcknowledgement>, bool)>) -> Outcome {
     match result {
-        Err(_) => Outcome::Write { key, token, kind, err: true, ack: 0, immediate: None, status: None, seen_done: 0, in_place, ttl_ns: ttl.map(|ttl| ttl.as_nanos()), earlier_pending: false, stalled: false },
+        Err(_) => Outcome::Write { key, token, kind, err: true, ack: 0, immediate: None, status: None, seen_done: 0, in_place, ttl_ns: ttl.map(|ttl| ttl.as_nanos()), removes_ttl, earlier_pending: false, stalled: false },
         Ok(ack) => {
             let immediate = poll_once(&ack, &noop_waker()).map(St::from);
             let pointer = Arc::as_ptr(&ack) as usize;
             *new_write = Some((ack, wait));
-            Outcome::Write { key, token, kind, err: false, ack: pointer, immediate, status: None, seen_done: 0, in_place, ttl_ns: ttl.map(|ttl| ttl.as_nanos()), earlier_pending: false, stalled: false }
+            Outcome::Write { key, token, kind, err: false, ack: pointer, immediate, status: None, seen_done: 0, in_place, ttl_ns: ttl.map(|ttl| ttl.as_nanos()), removes_ttl, earlier_pending: false, stalled: false }
         }
     }
 }
@@ -519,6 +524,17 @@ pub fn run_conc_case(case: &ConcCase, stall_window: Duration) -> ConcRun {
             let applied = wait_for(&inst, || if inst.access_records_applied.load(Ordering::Acquire) == cache.stats_summary().get(&StatsType::AccessAdded).unwrap_or(0) { Some(()) } else { None });
             if applied.is_err() && !inst.has_panicked() { history.liveness_error = Some("the access consumer did not apply the handed-over batches within the watchdog period".to_string()); }
         }
+        // C10 bounded liveness: one complete sweep at every shard residue; afterwards nothing that had expired before may remain
+        if !case.clock.is_empty() || history.recs.iter().any(|rec| matches!(&rec.outcome, Outcome::Write { ttl_ns: Some(_), .. })) {
+            history.rotation_start_ns = clock.get();
+            let mut ok = true;
+            for _ in 0..case.cfg.shards {
+                clock.set(clock.get() + 1_000_000_000);
+                let started = inst.sweeps_started.load(Ordering::Acquire);
+                if wait_for(&inst, || if inst.sweeps_completed.load(Ordering::Acquire) >= started + 2 { Some(()) } else { None }).is_err() { ok = false; break; }
+            }
+            history.rotated = ok;
+        }
         // worker alive: a delete of an unused key completes
         match shared.cache.delete(251) {
             Ok(ack) => { if await_ack(&ack, &inst).is_err() && !inst.has_panicked() { history.liveness_error = Some("the command worker did not complete a delete within the watchdog period".to_string()); } }
@@ -545,6 +561,49 @@ pub fn run_conc_case(case: &ConcCase, stall_window: Duration) -> ConcRun {
     inst.consumer_gate.open();
     shared.cache.shutdown();
     ConcRun { history, snapshot }
+}
+
+/// Directed witness of finding F10: two TTL upserts of one key overlap; the first is delayed between its store update
+/// and its expiry-index update (schedule point), the second runs completely in between. The index then holds the second
+/// deadline and, stale, the earlier first one; when the clock passes the first deadline the key is swept although its
+/// current deadline lies in the future.
+pub fn f10_witness() -> Option<Failure> {
+    thread_local! { static SLOW: std::cell::Cell<bool> = std::cell::Cell::new(false); }
+    let cfg = Cfg { counters: 100, capacity: 16, max_weight: 4000, shards: 2, cmd_buf: 8, pool: 1, buf: 4, tick_us: 500, hash: HashMode::Identity, weight_mode: WeightMode::Table(vec![8]), start_ns: 0 };
+    let inst = Instance::new();
+    let start = BASE_SECS * 1_000_000_000;
+    let clock = HClock::new(start);
+    let cache = Arc::new(crate::seq::build_cache(&cfg, &clock, &inst));
+    verif::install(None);
+    inst.set_handler(Some(Arc::new(|site: Site| { if site == Site::UpsertAfterStoreUpdate && SLOW.with(|slow| slow.get()) { std::thread::sleep(Duration::from_millis(40)); } })));
+    let key = 1u64;
+    let ack = cache.put_with_weight(key, 100, 8).ok()?;
+    await_ack(&ack, &inst).ok()?;
+    let slow_cache = cache.clone();
+    let slow_inst = inst.clone();
+    let slow = std::thread::spawn(move || {
+        SLOW.with(|slow| slow.set(true));
+        let ack = slow_cache.put_or_update(PutOrUpdateRequestBuilder::new(key).value(101).weight(8).time_to_live(Duration::from_secs(1)).build()).unwrap();
+        let _ = await_ack(&ack, &slow_inst);
+    });
+    std::thread::sleep(Duration::from_millis(15));
+    let ack = cache.put_or_update(PutOrUpdateRequestBuilder::new(key).value(102).weight(8).time_to_live(Duration::from_secs(4)).build()).ok()?;
+    await_ack(&ack, &inst).ok()?;
+    let _ = slow.join();
+    inst.set_handler(None);
+    let deadline = cache.get_ref(&key).and_then(|reference| reference.value().expire_after());
+    let mut failure = None;
+    // the clock moves to 3 s: past the first (overwritten) deadline, before the current one, and in the expiry shard of the first deadline
+    clock.set(start + 3_000_000_000);
+    let started = inst.sweeps_started.load(Ordering::Acquire);
+    let _ = wait_for(&inst, || if inst.sweeps_completed.load(Ordering::Acquire) >= started + 2 { Some(()) } else { None });
+    clock.set(start + 3_000_000_001);
+    let value = cache.get(&key);
+    if deadline == Some(std::time::UNIX_EPOCH + Duration::from_nanos(start + 4_000_000_000)) && value.is_none() {
+        failure = Some(Failure::new("C10", "C10/conc/index-race", format!("two overlapping put_or_update calls set the time-to-live of key {} to 1 s and then 4 s (deadline shown by get_ref: {:?}); with the clock at 3 s a sweep removed the key: get() = None although its deadline lies 1 s in the future", key, deadline)).with_also(vec!["C09".to_string()]));
+    }
+    cache.shutdown();
+    failure
 }
 
 include!("conc_check.rs");
